@@ -224,7 +224,14 @@ func RunUciScript(sc *Scenario) *UciRunOut {
 	gp.valid = true
 
 	send := func(i int, line string) bool {
-		ok := us.Send(line)
+		ws := 0
+		if i >= 0 && i < len(sc.Steps) && sc.Steps[i].Op == "send" && sc.Steps[i].Line == line {
+			ws = sc.Steps[i].Ws
+		}
+		if ws > 0 {
+			out.Probes["line_with_extra_white_space"]++
+		}
+		ok := us.SendWs(line, ws)
 		if !ok {
 			_, msg := us.LoopEnded()
 			out.LoopPanics = append(out.LoopPanics, LoopPanic{Step: i, Line: clip(line, 200), Msg: msg})
